@@ -271,6 +271,7 @@ type hsOutcome struct {
 	Rest          []byte // client: bytes readable after the handshake (buffer then conn)
 	OnReq         []byte
 	OnResp        []byte
+	StatusSeen    []byte // what OnStatusError was given and could read
 	OnReqRaw      []byte // the very slices the callbacks were given (an application that keeps its reports)
 	OnRespRaw     []byte
 	HasOnReq      bool
@@ -519,6 +520,10 @@ func runServerConn(r *eng.Run, s hsServer, p net.Conn, sent func() []byte, writa
 	return o
 }
 
+// lastStatusSeen is what the most recent OnStatusError callback was given
+// (status, reason, and everything it could read from the response reader).
+var lastStatusSeen []byte
+
 func (c hsClient) dialer() ws.Dialer {
 	d := ws.Dialer{ReadBufferSize: c.RBuf, WriteBufferSize: c.WBuf, Protocols: c.Protocols, Host: c.Host}
 	for _, e := range c.Exts {
@@ -531,7 +536,14 @@ func (c hsClient) dialer() ws.Dialer {
 		d.Timeout = time.Hour
 	}
 	if c.StatusCb {
-		d.OnStatusError = func(status int, reason []byte, resp io.Reader) { io.Copy(io.Discard, resp) }
+		lastStatusSeen = nil
+		d.OnStatusError = func(status int, reason []byte, resp io.Reader) {
+			// (reason is looked at before resp is read: it is a view into the
+			// buffer that reading resp refills - DESIGN §7, observations.)
+			seen := []byte(fmt.Sprintf("%d %s|", status, reason))
+			b, _ := io.ReadAll(resp)
+			lastStatusSeen = append(seen, b...)
+		}
 	}
 	if c.TLS {
 		d.TLSClient = func(conn net.Conn, hostname string) net.Conn { return &xorConn{Conn: conn} }
@@ -642,6 +654,9 @@ func runClientConn(r *eng.Run, c hsClient, p net.Conn, sent func() []byte, restL
 		}
 	}
 	o.Protocol, o.Exts = hs.Protocol, hs.Extensions
+	if c.StatusCb {
+		o.StatusSeen = lastStatusSeen
+	}
 	o.Written = c.wire(sent())
 	o.Head = o.Written
 	if o.Err == nil {
@@ -1072,6 +1087,9 @@ func compareOutcome(r *eng.Run, who string, a, b *hsOutcome, what string, t *hsT
 	}
 	if !bytes.Equal(a.Written, b.Written) {
 		r.Failf("output_depends_on_chunking", "%s: %s: bytes written differ (%d vs %d)%s\n  %s\n  %s", who, what, len(a.Written), len(b.Written), firstDiff(a.Written, b.Written), t.C, t.S)
+	}
+	if !bytes.Equal(a.StatusSeen, b.StatusSeen) {
+		r.Failf("outcome_depends_on_chunking", "%s: %s: OnStatusError was given something else (%d vs %d bytes)%s", who, what, len(a.StatusSeen), len(b.StatusSeen), firstDiff(a.StatusSeen, b.StatusSeen))
 	}
 	if !bytes.Equal(a.Rest, b.Rest) {
 		r.Failf("post_handshake_bytes_lost", "%s: %s: bytes readable behind the handshake differ (%d vs %d)", who, what, len(a.Rest), len(b.Rest))
